@@ -213,6 +213,7 @@ def d11_signature(inst, o):
                 if k == "int" and G.unlimbs(h["value"]["v"]) > G.unlimbs(c["hi"]["v"]["v"]): return True
                 if k == "str" and "".join(h["value"]["v"]).encode() > "".join(c["hi"]["v"]["v"]).encode(): return True
                 if k == "float" and h["value"]["v"] > c["hi"]["v"]["v"]: return True
+                if k in ("list", "bool", "enum"): return True       # same shape of candidate for a `>= %tag` property; ordering of these kinds is not re-implemented here
             if c.get("t") in ("single", "multiple", "impossible"):   # the inverted range intersected with other filters
                 return True
     return False
